@@ -143,6 +143,12 @@ theorem raw_data_prefix_invariant (p f : Bytes) (o : Obj V) :
     rawData (p ++ f) (o.shift p.length) = rawData f o :=
   rawData_shift p f o
 
+/-- the version string is read relative to the header too -/
+theorem version_prefix_invariant (p f : Bytes) (s : Nat) :
+    version (p ++ f) (p.length + s) = version f s := by
+  unfold version
+  rw [Nat.add_assoc, Nat.add_assoc, readRange_append]
+
 /-- **C17, `scan_prefix_invariant`.** The recovery scan looks at the same slice (header to newest
     cross-reference section) and therefore lists the same items, stream ranges `p.length` further on. -/
 theorem scan_prefix_invariant (P : Parsers V T) (p f : Bytes) (s k : Nat) (hfit : Fits p f)
